@@ -38,7 +38,7 @@ func rewritePath(rewriteRegExp *regexp.Regexp, rewriteTarget string, writer page
 
 		// Use the regex to rewrite the request path before proxying to the upstream.
 		newURI := rewriteRegExp.ReplaceAllString(reqURL.Path, rewriteTarget)
-		reqURL.Path, reqURL.RawQuery, err = splitPathAndQuery(reqURL.Query(), newURI)
+		reqURL.Path, reqURL.RawQuery, err = splitPathAndQuery(reqURL.RawQuery, newURI)
 		if err != nil {
 			logger.Errorf("could not parse rewrite URI: %v", err)
 			writer.WriteErrorPage(rw, pagewriter.ErrorPageOpts{
@@ -56,14 +56,14 @@ func rewritePath(rewriteRegExp *regexp.Regexp, rewriteTarget string, writer page
 }
 
 // splitPathAndQuery splits the rewritten path into the URL Path and the URL
-// raw query. Any rewritten query values are appended to the original query
-// values.
-// This relies on the underlying URL library to encode the query string.
+// raw query. The original query is kept as it was received; any rewritten
+// query values are appended to it.
+// This relies on the underlying URL library to encode the rewritten values.
 // For duplicate values it appends each as a separate value, e.g. ?foo=bar&foo=baz.
-func splitPathAndQuery(originalQuery url.Values, raw string) (string, string, error) {
+func splitPathAndQuery(originalQuery string, raw string) (string, string, error) {
 	s := strings.SplitN(raw, "?", 2)
 	if len(s) == 1 {
-		return s[0], originalQuery.Encode(), nil
+		return s[0], originalQuery, nil
 	}
 
 	queryValues, err := url.ParseQuery(s[1])
@@ -71,11 +71,9 @@ func splitPathAndQuery(originalQuery url.Values, raw string) (string, string, er
 		return "", "", err
 	}
 
-	for key, values := range queryValues {
-		for _, value := range values {
-			originalQuery.Add(key, value)
-		}
+	rewrittenQuery := queryValues.Encode()
+	if originalQuery == "" || rewrittenQuery == "" {
+		return s[0], originalQuery + rewrittenQuery, nil
 	}
-
-	return s[0], originalQuery.Encode(), nil
+	return s[0], originalQuery + "&" + rewrittenQuery, nil
 }
